@@ -29,6 +29,8 @@ type world struct {
 	stable time.Duration
 }
 
+var snapDir string
+
 func fast(c *serf.Config) {
 	m := c.MemberlistConfig
 	m.ProbeInterval = 40 * time.Millisecond
@@ -74,7 +76,12 @@ func (w *world) start(x int) error {
 	} else {
 		tr = w.net.NewTransport(w.names[x])
 	}
-	nd, err := quiet.NewNode(w.net, w.names[x], tr, fast)
+	nd, err := quiet.NewNode(w.net, w.names[x], tr, fast, func(c *serf.Config) {
+		if snapDir != "" {
+			c.SnapshotPath = fmt.Sprintf("%s/snap-%p-%d", snapDir, w, x)
+			c.RejoinAfterLeave = false
+		}
+	})
 	if err != nil {
 		return err
 	}
@@ -186,6 +193,7 @@ func main() {
 	nn := flag.Int("nn", 3, "nodes")
 	par := flag.Int("par", 8, "scenarios run concurrently")
 	stableMs := flag.Int("stable", 1500, "quiet = no view change for this many ms")
+	flag.StringVar(&snapDir, "snapdir", "", "if set, every node keeps a snapshot file under this directory")
 	flag.Parse()
 	scheds, err := h.ReadSchedules(*in)
 	if err != nil {
